@@ -778,11 +778,11 @@ func (w *c14hWorld) step(k int) {
 	case op < subS:
 		w.commitSpend(op+lo, vU32(name+".h"))
 	case op < 2*subS:
-		w.purgeSpend(op-subS+lo)
+		w.purgeSpend(op - subS + lo)
 	case op < 2*subS+subC:
 		w.commitConf(op-2*subS+lo, vU32(name+".h"))
 	case op < 2*subS+2*subC:
-		w.purgeConf(op-2*subS-subC+lo)
+		w.purgeConf(op - 2*subS - subC + lo)
 	default:
 		// restart with the QueryDisable switch flipped
 		w.open(!w.disabled)
